@@ -152,6 +152,12 @@ func (w *world) checkPersist(where string) {
 		return
 	}
 	st, data, err := w.m.VerifSnapshot()
+	if w.stopped || w.stopping {
+		// taking the snapshot is a scheduling point: Stop may have begun
+		// meanwhile (Stop saves without the state lock and is outside the
+		// property; found by the thorough tier)
+		return
+	}
 	w.comparePersisted(where, st, data, err, false)
 }
 
@@ -592,7 +598,23 @@ func runC30() {
 	disk := w.phase(nReq, 7, true, nil)
 	if simrt.Chance(1, 3, "restart") {
 		simrt.Probe("restart")
-		w2 := &world{dir: dir, cfg: cfg, gen: 1}
+		// A restart is a new process: the old incarnation is dead and cannot
+		// write any more. A poll of the stopped Manager that is still waiting
+		// out its poll duration would otherwise save its state over the new
+		// incarnation's file (an artefact of running both in one process,
+		// found by the thorough tier). The new incarnation therefore works on
+		// a copy of the directory as it was when the old one stopped.
+		dir2, err := os.MkdirTemp(base, "verif-wsleep-")
+		if err != nil {
+			panic(err)
+		}
+		defer os.RemoveAll(dir2)
+		if data, rerr := os.ReadFile(dir + "/sleep_state.json"); rerr == nil {
+			if werr := os.WriteFile(dir2+"/sleep_state.json", data, 0o600); werr != nil {
+				panic(werr)
+			}
+		}
+		w2 := &world{dir: dir2, cfg: cfg, gen: 1}
 		w2.phase(1+simrt.Choose(2, "requesters2"), 4, false, &disk)
 	}
 }
